@@ -14,6 +14,11 @@ WAITING = {'NEW_CHILD_REQ_SENT', 'REK_CHILD_REQ_SENT', 'REK_IKE_SA_REQ_SENT', 'D
 ALL_KINDS = ('idle', 'newchild', 'rekchild', 'delchild', 'newchild_ke', 'rekeyike_ke', 'init', 'init_cookie', 'init_ke', 'auth')
 
 
+def _integ_id(c):
+    import probes
+    return probes.integ_id(c)
+
+
 class Mismatch(Exception):
     def __init__(self, component, msg, expected=None, observed=None):
         super().__init__(f'{component}: {msg}')
@@ -156,6 +161,22 @@ class TimerWorld:
             out = w.dispatch('A', res, 'B')
             if out is not None:
                 raise Mismatch('answer', 'a request is sent in reaction to TEMPORARY_FAILURE where the specification waits for the timer')
+        elif name == 'Noise':
+            sa = self.sa
+            self.noise_n = getattr(self, 'noise_n', 0) + 1
+            form = self.noise_n % 3
+            peer_flag = not sa.is_initiator
+            if form == 0:      # a late copy of / a forged cleartext IKE_SA_INIT response carrying this IKE_SA's SPIs
+                data = W.enc_message({'spi_i': sa.spi_i, 'spi_r': sa.spi_r, 'xchg': 34, 'response': True, 'initiator': peer_flag, 'mid': 0}, [])
+            elif form == 1:    # a cleartext INFORMATIONAL request with the expected Message ID
+                data = W.enc_message({'spi_i': sa.spi_i, 'spi_r': sa.spi_r, 'xchg': 37, 'response': False, 'initiator': peer_flag, 'mid': sa.peer_msg_id}, [])
+            else:              # an INFORMATIONAL request sealed under keys that are not the peer's
+                data = W.enc_message({'spi_i': sa.spi_i, 'spi_r': sa.spi_r, 'xchg': 37, 'response': False, 'initiator': peer_flag, 'mid': sa.peer_msg_id}, [],
+                                     sk={'ke': b'\x5a' * len(sa.my_crypto.sk_e), 'ka': b'\xa5' * len(sa.my_crypto.sk_a), 'integ': _integ_id(sa.my_crypto),
+                                         'iv': b'\x21' * 16, 'inner': []})
+            out = w.dispatch('A', data, 'B')
+            if out is not None:
+                raise Mismatch('noise', 'an unauthenticated datagram is answered')
         elif name == 'PeerProbe':
             b = w.sas('B')[0]
             keep = b.start_dpd_at
